@@ -146,7 +146,7 @@ class LinearInterpolator(NNBase):
 
         # Find the neighbors
         if self._pt_cache is not None and \
-                np.allclose(self._pt_cache[0], normPredPts):
+                np.array_equal(self._pt_cache[0], normPredPts):
             ndist, nloc = self._pt_cache[1:]
         else:
             ndist, nloc = self._KData.query(normPredPts.real, dims)
